@@ -42,7 +42,7 @@ def save_meta(d, m):
 
 def do_import(pid):
     src = next((d for d in (f"/tmp/seed{r}-{pid}/_seeded"
-                            for r in ("7", "6", "5", "4", "3", "2", ""))
+                            for r in ("8", "7", "6", "5", "4", "3", "2", ""))
                 if os.path.isdir(d)), None)
     if src is None:
         raise SystemExit(f"no seeded directory for {pid}")
